@@ -134,6 +134,8 @@ def correspondence(ctx, ncases):
     ctx.extra.setdefault('correspondence', {})['differentiator'] = {'cases': len(cases), 'corpus_cases': len(corpus), 'disagreements': len(dis),
         'estimates_compared': nest, 'estimates_bitwise_equal': bitwise, 'SignificantReal': sig, 'input_distribution': dict(sorted(hist.items()))}
     ctx.trusted.add('correspondence harness harness/C40_diff.cpp + ocaml/C40_drv.ml with float NumOps; evaluation points compared to 8 ulp, estimates to 1e-9 rel + 64 eps |f|/h')
+    # the two defects below were found by this check and repaired in /repo (fix commit 9362a2af, known_findings.txt 'fixed:' lines);
+    # the classification is kept so that a regression is reported under its specific key with the failing case attached
     for key, (line, a, b) in known.items():
         what = ('Differentiator::calcDerivative on a 1-parameter GradientFunction / 1x1 JacobianFunction returns an uninitialised value (result written to a copy)'
                 if key == K_LOST else 'Differentiator::calcGradient on a JacobianFunction with one function and n>1 parameters throws (Vector resized to 1 x n)')
